@@ -340,6 +340,12 @@ def cmd_kill(argv):
         if limit is not None and n >= limit:
             break
         n += 1
+        try:
+            with open(os.path.join("/repo", m["file"])) as fh:
+                if fh.read()[m["start"]:m["end"]] != m["old"]:
+                    continue  # the file was changed (a fix: commit) after `gen`: this mutant is stale
+        except OSError:
+            continue
         own = list(anc.get(m["file"], []))
         # cheap, broad checks first; the expensive ones (C01, C11, C14) last
         cost = {"C01": 3, "C11": 4, "C14": 5, "C12": 2, "C07": 2}
